@@ -13,8 +13,8 @@ type Term struct {
 	Op   string  // function symbol, constant name, or one of: #int #str #bool forall exists let
 	Args []*Term // arguments (for quantifiers: the body is Args[0])
 	Sort string
-	BV   []*Term   // bound variables of a quantifier
-	Pats [][]*Term // optional patterns
+	BV   []*Term    // bound variables of a quantifier
+	Pats [][]*Term  // optional patterns
 	T    types.Type // Go type when known (metadata only, not part of identity)
 	Lit  string     // literal payload for #int / #str / #bool
 	str  string
@@ -61,7 +61,7 @@ func App(op, sort string, args ...*Term) *Term {
 	return &Term{Op: op, Sort: sort, Args: args}
 }
 
-func IntLit(n int64) *Term { return &Term{Op: "#int", Sort: SInt, Lit: strconv.FormatInt(n, 10)} }
+func IntLit(n int64) *Term  { return &Term{Op: "#int", Sort: SInt, Lit: strconv.FormatInt(n, 10)} }
 func StrLit(s string) *Term { return &Term{Op: "#str", Sort: SStr, Lit: s} }
 func BoolLit(b bool) *Term {
 	if b {
